@@ -42,7 +42,7 @@ def r1_pairing(ctx):
                 elif nm == H + '::exec':
                     order.append('exec')
             # left through the harness' panic error?  (`.catch()?`)
-            panic_exit = any(a[0] == 'is' and a[2] == 'Break' and a[1][0] == 'call' and a[1][1].endswith('::branch') and
+            panic_exit = any(a[0] == 'is' and a[2] in ('Break', 'Err') and a[1][0] == 'call' and
                              any(x[0] == 'call' and x[1] in (H + '::catch', H + '::pass') for x in walk(a[1])) for a in atoms)
             n += 1
             if panic_exit:
